@@ -26,7 +26,7 @@ From Coq Require Import ZArith List Bool Lia.
 From AV Require Import Lib.Bytes Lib.RtpX Gen.Utils Gen.RtpConst Model.Rtp Proof.SerialP.
 From AV Require Lib.CodecX Model.Jitter Model.RtpSend Model.RtpRecv.
 From AV Require Proof.RtpSendP Proof.RtpRecvNackP Proof.RtpRecvJbP Proof.RtpRecvP Proof.RtpLinkP Proof.RtpEndP.
-From AV Require Proof.JitterP Proof.JitterOrderP Proof.RtpOrderP.
+From AV Require Proof.JitterP Proof.JitterOrderP Proof.RtpOrderP Proof.Vp8P Proof.H264PStap Proof.RtpBytesP Model.Vp8 Model.H264.
 Import ListNotations.
 Local Open Scope Z_scope.
 
@@ -194,6 +194,26 @@ Theorem C11_frame_order : forall c l s' outs p jl,
              OP.decoder_frames outs = map AV.Model.Jitter.fdata fs.
 Proof. exact OP.decoder_frames_ordered. Qed.
 Print Assumptions C11_frame_order.
+
+(* BYTE IDENTITY (C11 composed with C16).  When every sent frame's RTP payloads are what the
+   real packetisers produce for an encoded frame -- Vp8.packetize buffer pid, or H264.packetize
+   of valid NAL units -- every WHOLE frame handed to the decoder (C11_frame_whole says which
+   ones are whole) is, byte for byte, that encoded VP8 buffer, or the Annex-B stream
+   START_CODE ++ nal ... of those NAL units. *)
+Module BP := AV.Proof.RtpBytesP.
+Theorem C11_vp8_bytes : forall (sframes : list (list rtp)) (bufs : list (bytes * Z)) d,
+  Forall2 (fun g bp => 0 <= snd bp < 32768 /\ AV.Model.Vp8.packetize (fst bp) (snd bp) = AV.Lib.CodecX.Ok (map payload g)) sframes bufs ->
+  VP.whole_data (LP.jframes V.KVp8 sframes) d -> exists bp, In bp bufs /\ d = fst bp.
+Proof. exact BP.vp8_whole_is_encoder_output. Qed.
+Print Assumptions C11_vp8_bytes.
+
+Theorem C11_h264_bytes : forall (sframes : list (list rtp)) (nalss : list (list bytes)) d,
+  Forall2 (fun g nals => Forall AV.Proof.H264PStap.valid_nal nals /\
+                         AV.Model.H264.packetize nals = AV.Lib.CodecX.Ok (map payload g)) sframes nalss ->
+  VP.whole_data (LP.jframes V.KH264 sframes) d ->
+  exists nals, In nals nalss /\ d = concat (map (fun n => AV.Model.H264.START_CODE ++ n) nals).
+Proof. exact BP.h264_whole_is_encoder_output. Qed.
+Print Assumptions C11_h264_bytes.
 
 (* ---------------------------------------------------------------- non-vacuity *)
 Definition ex_sender : S.sender := S.mkSender 100 7 8 (Some 101) None 65535 4294967000 32000 [].
